@@ -705,7 +705,13 @@ func runScenario(sc *script, lt *layoutTables, tick time.Duration, seed int64, f
 				devices = append(devices, uhppote.Device{Name: c.ctl, DeviceID: f.serial[c.ctl], Address: types.ControllerAddr{AddrPort: ap}, Protocol: path})
 			}
 		}
-		clients[path] = uhppote.NewUHPPOTE(bind, bc, types.ListenAddr{}, timeout, devices, false)
+		// (on a shared fixed port every third scenario gives the connected-UDP client the WILDCARD address with the same
+		// port: it is the same port - the calls of all clients still take turns)
+		b := bind
+		if f.bindP != 0 && path == "udp" && len(sc.id)%3 == 1 {
+			b = types.BindAddr{AddrPort: netip.AddrPortFrom(netip.AddrFrom4([4]byte{0, 0, 0, 0}), uint16(f.bindP))}
+		}
+		clients[path] = uhppote.NewUHPPOTE(b, bc, types.ListenAddr{}, timeout, devices, false)
 		all = append(all, devices...)
 	}
 	// ... or, in every other scenario in which no controller is reached over two different paths, ONE client that is
